@@ -182,8 +182,8 @@ def exportOps (cfg : Cfg) (record : List Item) : List TermOp :=
 def initShared (cfg : Cfg) (ov : Overflow) (init : List Line) : Shared :=
   match cfg.kind with
   | .progress =>
-    let tasks : List Task := (List.range init.length).zip init |>.map (fun (i, d) => { id := i, desc := d, completed := 0, visible := true })
-    { overflow := ov, overflow0 := ov, tasks := tasks, renderable := tasksTable tasks }
+    let tasks : List Task := (List.range init.length).zip init |>.map (fun (i, d) => { id := i, desc := d, completed := 0, total := 100, visible := true })
+    { overflow := ov, overflow0 := ov, tasks := tasks, renderable := tasksTable cw1 tasks }
   | _ => { overflow := ov, overflow0 := ov, renderable := init }
 
 def inDomain (cfg : Cfg) (ov : Overflow) (progs : List (List Op)) : Bool :=
